@@ -97,6 +97,16 @@ def gen_fn_case(rng):
             graphs = [tm('exec', g.execution())]
         poms.append({'preds': [pred], 'objs': [obj], 'graphs': graphs})
     subj = tm('templ', EX + 'r/{id}') if rng.random() < 0.8 else tm('exec', g.execution(), 'iri', rng.choice(['', 'iri', 'bnode']))
+    if rng.random() < 0.15 and g.execs:
+        # ONE function execution resource used by two term maps of the same rule (subject + object, object + graph, two objects)
+        shared = rng.choice([o['m']['v'] for p in poms for o in p['objs'] if o['m']['k'] == 'exec'] or [g.execs[-1]['id']])
+        where = rng.choice(['subject', 'graph', 'object'])
+        if where == 'subject' and subj['k'] != 'exec':
+            subj = tm('exec', shared, 'iri', rng.choice(['iri', 'bnode']))
+        elif where == 'graph':
+            poms[0]['graphs'] = poms[0]['graphs'] + [tm('exec', shared)]
+        else:
+            poms.append({'preds': [tm('const', EX + 'p/again')], 'objs': [{'m': tm('exec', shared, 'iri', rng.choice(['', 'lit', 'iri'])), 'lang': None, 'dt': None, 'joins': []}], 'graphs': []})
     doc = [{'id': EX + 'tm/T', 'src': 'S0', 'nonasserted': False, 'subj': subj, 'sjoins': [], 'classes': [], 'sgraphs': [], 'poms': poms}]
     if rng.random() < 0.3:
         doc.append({'id': EX + 'tm/Other', 'src': 'S0', 'nonasserted': False, 'subj': tm('templ', EX + 'o/{id}'), 'sjoins': [], 'classes': [EX + 'C'], 'sgraphs': [],
@@ -127,6 +137,23 @@ def run(ctx, res):
                 'and the Spec, and under all three modes against each other; distinct = distinct case; non-trivial = at least one statement from a function-valued map')
     known = set(ctx.known)
     cases = [gen_fn_case(ctx.rng) for _ in range(ctx.scale(150, 3000))]
+    # directed: one execution resource in two positions of the same rule -- a list result gives every combination per row, a scalar result
+    # is the same value in both positions (each position escapes / encodes it in its own way)
+    for _ in range(ctx.scale(8, 60)):
+        rows = [[str(i + 1), ctx.rng.choice(['a,b', 'a,b,c', "O'Neil", 'say "hi"', 'x y', 'p,q']), 'z'] for i in range(ctx.rng.choice([1, 2, 3]))]
+        if ctx.rng.random() < 0.5:
+            execs = [{'id': EX + 'exec/S1', 'fun': MK + 'string_split_explode', 'inputs': [[GREL + 'valueParam', 'ref', 'c1'], [GREL + 'param_string_sep', 'const', ',']]}]
+        else:
+            execs = [{'id': EX + 'exec/S1', 'fun': GREL + 'toUpperCase', 'inputs': [[GREL + 'valueParam', 'ref', 'c1']]}]
+        pair = ctx.rng.choice(['subject+object', 'object+graph', 'object+object'])
+        obj = {'m': tm('exec', EX + 'exec/S1', 'iri', ctx.rng.choice(['', 'lit'])), 'lang': None, 'dt': None, 'joins': []}
+        subj = tm('exec', EX + 'exec/S1', 'iri', 'bnode') if pair == 'subject+object' else tm('templ', EX + 'r/{id}')
+        poms = [{'preds': [tm('const', EX + 'p/a')], 'objs': [obj], 'graphs': [tm('exec', EX + 'exec/S1')] if pair == 'object+graph' else []}]
+        if pair == 'object+object':
+            poms.append({'preds': [tm('const', EX + 'p/b')], 'objs': [{'m': tm('exec', EX + 'exec/S1', 'iri', 'bnode'), 'lang': None, 'dt': None, 'joins': []}], 'graphs': []})
+        cases.append({'cfg': {'nquads': True, 'mode': ctx.rng.choice(['NO', 'PARTIAL-AGGREGATIONS', 'MAXIMAL']), 'udfs': 'udfs.py'},
+                      'sources': [{'key': 'S0', 'kind': 'csv', 'cols': ['id', 'c1', 'c2'], 'rows': rows}],
+                      'doc': [{'id': EX + 'tm/T', 'src': 'S0', 'nonasserted': False, 'subj': subj, 'sjoins': [], 'classes': [], 'sgraphs': [], 'poms': poms}], 'execs': execs})
     batch = family.Batch(ctx)
     recs = batch.run(cases)
     for rec in recs:
